@@ -64,6 +64,7 @@ template <class H, class T, size_t M, size_t N> void matmul_read(const H &h, T *
     Tensor<T, M, 2> r = matmul(h, z); Tensor<T, M, 2> r2 = h % z;
     for (size_t i = 0; i < M * 2; ++i) { out[i] = r.data()[i]; out[M * 2 + i] = r2.data()[i]; }
 }
+// (d += X + d % Z through a map does not compile on the pinned tree: no does_alias()/matmul dispatcher for a TensorMap destination)
 template <class S> struct mm_len { static constexpr size_t value = 1; };
 template <size_t M, size_t N> struct mm_len<shape_<M, N>> { static constexpr size_t value = 4 * M; };
 
@@ -168,6 +169,21 @@ template <class T, class S0, class S1, class S2> struct MU : UniverseBase {
         };
         if (kind == K_REDUCE) { nrd = 4; writes = false; } else if (kind == K_READ_EXPR) { nrd = (size_t)SZ; writes = false; } else if (kind == K_MATMUL) { nrd = mm_len<Sh>::value; writes = false; }
         for (size_t i = 0; i < nrd; ++i) { rd_h[i] = 0; rd_t[i] = 0; }
+        if (kind == K_MAP_COPY) {
+            // h = other map of the SAME type over another buffer: on owning tensors `a = b` copies the values
+            g_arena.reset(1, st.a[A_X]); T *ob = (T *)g_arena.place(1, sizeof(T) * SZ, alignof(T), st.a[A_I0] % 3, st.a[A_I0 + 1] % 64, false);
+            for (int i = 0; i < SZ; ++i) ob[i] = X.data()[i];
+            Map other(ob); Ten otw(X);
+            Outcome ot2 = window([&] { tw = otw; }, false); (void)ot2;
+            Outcome o2 = window([&] { h = other; }, failalloc);
+            snprintf(cx.info->desc, sizeof cx.info->desc, "h%d<rank %d> = another map of the same type", hi, R);
+            cx.info->sig = mix2(0x3c, (uint64_t)hi); cx.info->nontrivial = true;
+            if (o2.kind == 1) { char d2[200]; o2.describe(d2, sizeof d2); cx.v->set(cx.si, "fault/map_copy", cx.opname, "%s: %s raised %s", cx.opname, cx.info->desc, d2); return; }
+            if (h.data() != buf) { cx.v->set(cx.si, "rebind/map_copy", cx.opname, "%s: %s: the handle was re-bound to the other buffer instead of receiving its values (an owning tensor would have been assigned the values)", cx.opname, cx.info->desc);
+                new (&h) Map(buf); return; }
+            if (memcmp(buf, tw.data(), sizeof(T) * SZ) != 0) { cx.v->set(cx.si, "divergence/map_copy", cx.opname, "%s: %s: buffer differs from the owning twin after the assignment", cx.opname, cx.info->desc); return; }
+            memcpy(shadow.data(), tw.data(), sizeof(T) * SZ); last_writer = hi; return;
+        }
         Outcome ot = window([&] { run(tw, rd_t); }, false);
         if (ot.kind != 0) { if (cx.cnt) cx.cnt->bump(std::string("anomaly/twin-operation-did-not-complete/") + KINDNAME[kind]); cx.info->kind = "aborted"; return; }
         Outcome o = window([&] { run(h, rd_h); }, failalloc);
